@@ -97,6 +97,21 @@ Fixpoint unprotect (p : prog) : prog :=
   | Skip | Op _ | Raise _ | Return | SetVar _ _ => p
   end.
 
+(** every clean-up block, including those of inlined callees, is a clean-up block of the
+    operation under analysis (used when the property is about a whole operation, e.g.
+    draw(): "interrupted at any point before its own clean-up starts") *)
+Fixpoint protect (p : prog) : prog :=
+  match p with
+  | Seq a b => Seq (protect a) (protect b)
+  | Choice a b => Choice (protect a) (protect b)
+  | Loop b => Loop (protect b)
+  | TryFinally _ b f => TryFinally true (protect b) (protect f)
+  | TryExcept _ b mk hk me he => TryExcept true (protect b) mk (protect hk) me (protect he)
+  | IfVar x a b => IfVar x (protect a) (protect b)
+  | Call p => Call (protect p)
+  | Skip | Op _ | Raise _ | Return | SetVar _ _ => p
+  end.
+
 (** * State: the vector of obligations *)
 
 Record st := mkst {
@@ -111,6 +126,7 @@ Record st := mkst {
   pend : bool;          (* frame data written and not yet flushed *)
   cut : bool;           (* a frame write was interrupted and not handled *)
   kiseen : bool;        (* ghost: a KeyboardInterrupt fault has been injected *)
+  excseen : bool;       (* ghost: an Exception fault has been injected *)
   imgs : list bool      (* image i opened by the library and not closed *)
 }.
 
@@ -126,21 +142,22 @@ Definition get (n : nat) (l : list bool) : bool := nth n l false.
 Definition rmod (r : res) (s : st) : bool :=
   match r with RTermios => tmod s | RSize => szmod s | RSeek => skmod s end.
 
-Definition set_vars v s := mkst v (snaps s) (tmod s) (szmod s) (skmod s) (hidden s) (unfin s) (iter_open s) (pend s) (cut s) (kiseen s) (imgs s).
-Definition set_snaps v s := mkst (vars s) v (tmod s) (szmod s) (skmod s) (hidden s) (unfin s) (iter_open s) (pend s) (cut s) (kiseen s) (imgs s).
+Definition set_vars v s := mkst v (snaps s) (tmod s) (szmod s) (skmod s) (hidden s) (unfin s) (iter_open s) (pend s) (cut s) (kiseen s) (excseen s) (imgs s).
+Definition set_snaps v s := mkst (vars s) v (tmod s) (szmod s) (skmod s) (hidden s) (unfin s) (iter_open s) (pend s) (cut s) (kiseen s) (excseen s) (imgs s).
+Definition set_hidden v s := mkst (vars s) (snaps s) (tmod s) (szmod s) (skmod s) v (unfin s) (iter_open s) (pend s) (cut s) (kiseen s) (excseen s) (imgs s).
+Definition set_unfin v s := mkst (vars s) (snaps s) (tmod s) (szmod s) (skmod s) (hidden s) v (iter_open s) (pend s) (cut s) (kiseen s) (excseen s) (imgs s).
+Definition set_iter v s := mkst (vars s) (snaps s) (tmod s) (szmod s) (skmod s) (hidden s) (unfin s) v (pend s) (cut s) (kiseen s) (excseen s) (imgs s).
+Definition set_pend v s := mkst (vars s) (snaps s) (tmod s) (szmod s) (skmod s) (hidden s) (unfin s) (iter_open s) v (cut s) (kiseen s) (excseen s) (imgs s).
+Definition set_cut v s := mkst (vars s) (snaps s) (tmod s) (szmod s) (skmod s) (hidden s) (unfin s) (iter_open s) (pend s) v (kiseen s) (excseen s) (imgs s).
+Definition set_kiseen v s := mkst (vars s) (snaps s) (tmod s) (szmod s) (skmod s) (hidden s) (unfin s) (iter_open s) (pend s) (cut s) v (excseen s) (imgs s).
+Definition set_excseen v s := mkst (vars s) (snaps s) (tmod s) (szmod s) (skmod s) (hidden s) (unfin s) (iter_open s) (pend s) (cut s) (kiseen s) v (imgs s).
+Definition set_imgs v s := mkst (vars s) (snaps s) (tmod s) (szmod s) (skmod s) (hidden s) (unfin s) (iter_open s) (pend s) (cut s) (kiseen s) (excseen s) v.
 Definition set_rmod r v s :=
   match r with
-  | RTermios => mkst (vars s) (snaps s) v (szmod s) (skmod s) (hidden s) (unfin s) (iter_open s) (pend s) (cut s) (kiseen s) (imgs s)
-  | RSize => mkst (vars s) (snaps s) (tmod s) v (skmod s) (hidden s) (unfin s) (iter_open s) (pend s) (cut s) (kiseen s) (imgs s)
-  | RSeek => mkst (vars s) (snaps s) (tmod s) (szmod s) v (hidden s) (unfin s) (iter_open s) (pend s) (cut s) (kiseen s) (imgs s)
+  | RTermios => mkst (vars s) (snaps s) v (szmod s) (skmod s) (hidden s) (unfin s) (iter_open s) (pend s) (cut s) (kiseen s) (excseen s) (imgs s)
+  | RSize => mkst (vars s) (snaps s) (tmod s) v (skmod s) (hidden s) (unfin s) (iter_open s) (pend s) (cut s) (kiseen s) (excseen s) (imgs s)
+  | RSeek => mkst (vars s) (snaps s) (tmod s) (szmod s) v (hidden s) (unfin s) (iter_open s) (pend s) (cut s) (kiseen s) (excseen s) (imgs s)
   end.
-Definition set_hidden v s := mkst (vars s) (snaps s) (tmod s) (szmod s) (skmod s) v (unfin s) (iter_open s) (pend s) (cut s) (kiseen s) (imgs s).
-Definition set_unfin v s := mkst (vars s) (snaps s) (tmod s) (szmod s) (skmod s) (hidden s) v (iter_open s) (pend s) (cut s) (kiseen s) (imgs s).
-Definition set_iter v s := mkst (vars s) (snaps s) (tmod s) (szmod s) (skmod s) (hidden s) (unfin s) v (pend s) (cut s) (kiseen s) (imgs s).
-Definition set_pend v s := mkst (vars s) (snaps s) (tmod s) (szmod s) (skmod s) (hidden s) (unfin s) (iter_open s) v (cut s) (kiseen s) (imgs s).
-Definition set_cut v s := mkst (vars s) (snaps s) (tmod s) (szmod s) (skmod s) (hidden s) (unfin s) (iter_open s) (pend s) v (kiseen s) (imgs s).
-Definition set_kiseen v s := mkst (vars s) (snaps s) (tmod s) (szmod s) (skmod s) (hidden s) (unfin s) (iter_open s) (pend s) (cut s) v (imgs s).
-Definition set_imgs v s := mkst (vars s) (snaps s) (tmod s) (szmod s) (skmod s) (hidden s) (unfin s) (iter_open s) (pend s) (cut s) (kiseen s) v.
 
 (** effect of a call that completes *)
 Definition eff (o : op) (s : st) : st :=
@@ -168,7 +185,7 @@ Definition eff (o : op) (s : st) : st :=
 (** what an exception raised by call [o] additionally leaves behind: the ghost flag, and
     a possibly half-written frame when the call was writing / flushing frame data *)
 Definition fault (o : op) (k : exn) (s : st) : st :=
-  let s := match k with KI => set_kiseen true s | Exc => s end in
+  let s := match k with KI => set_kiseen true s | Exc => set_excseen true s end in
   match o with
   | Write WFrame => set_cut true s
   | Flush => if pend s then set_cut true s else s
@@ -251,7 +268,8 @@ Definition st_eqb (a b : st) : bool :=
   lb_eqb (vars a) (vars b) && lb_eqb (snaps a) (snaps b) && Bool.eqb (tmod a) (tmod b)
   && Bool.eqb (szmod a) (szmod b) && Bool.eqb (skmod a) (skmod b) && Bool.eqb (hidden a) (hidden b)
   && Bool.eqb (unfin a) (unfin b) && Bool.eqb (iter_open a) (iter_open b) && Bool.eqb (pend a) (pend b)
-  && Bool.eqb (cut a) (cut b) && Bool.eqb (kiseen a) (kiseen b) && lb_eqb (imgs a) (imgs b).
+  && Bool.eqb (cut a) (cut b) && Bool.eqb (kiseen a) (kiseen b) && Bool.eqb (excseen a) (excseen b)
+  && lb_eqb (imgs a) (imgs b).
 Definition os_eqb (a b : outcome * st) : bool := out_eqb (fst a) (fst b) && st_eqb (snd a) (snd b).
 
 Definition res_t := list (outcome * st).
@@ -299,7 +317,7 @@ Arguments TLeaf {A}.
 
 Definition enc_list (l : list bool) : list bool := flat_map (fun b => [true; b]) l ++ [false].
 Definition enc_st (s : st) : list bool :=
-  tmod s :: szmod s :: skmod s :: hidden s :: unfin s :: iter_open s :: pend s :: cut s :: kiseen s
+  tmod s :: szmod s :: skmod s :: hidden s :: unfin s :: iter_open s :: pend s :: cut s :: kiseen s :: excseen s
   :: enc_list (vars s) ++ enc_list (snaps s) ++ enc_list (imgs s).
 Definition enc_os (os : outcome * st) : list bool :=
   match fst os with
@@ -420,7 +438,7 @@ End Sem.
 
 (** clean state with the given valuation of the tracked booleans *)
 Definition init (vs : list bool) : st :=
-  mkst vs [] false false false false false false false false false [].
+  mkst vs [] false false false false false false false false false false [].
 
 Fixpoint all_vals (n : nat) : list (list bool) :=
   match n with
